@@ -28,7 +28,8 @@ rfc822 / rfc5322 packages.  Each field is the value of a function this model doe
                against whole-second boundaries)
   text         `state.getLiteral` (the stored literal, INCLUDING gluon's `X-Pm-Gluon-Id` header line)
   hdr          `rfc822.NewHeader(Split(text).header)`: keyed entries in order, (name as written,
-               `getMerged` value); `none` = NewHeader returned an error
+               `getMerged` value = the UNFOLDED value); `none` = NewHeader returned an error.  As a function of
+               `text` this is `Search.hdrOfLiteral` (Model/SearchHeader.lean)
   sent         `rfc5322.ParseDateTime(header.Get("Date"))`; `none` = parse error
   body         `rfc822.Parse(text).Body()`
 Not modelled: store / database failures (every message of the view is loadable — gluon keeps the data
